@@ -11,12 +11,14 @@ R4  no unbounded re-sleep: inside one wait the cancellable sleep is entered only
     primitive that receives the caller's abs_deadline and cancel_note.
 R5  once the note is notified no further wake-up is needed: the waiter registers on the cancel note only after re-reading the note's state under note_mu.
 R6  ... and it always registers: every path to a sleep of the cancellable wait (note non-NULL, found un-notified) has put the record on the note's list.
+R8  the first iteration of each wait loop reaches the sleep on every path that stays in the loop (header phis evaluated at their entry values).
 R7  ETIMEDOUT originates only in the timed semaphore wait, under wait result == -1, errno == ETIMEDOUT and deadline <= now (= C12.R3).
 Wall-clock promptness is not decided."""
 from .. import util, mumodel, ir as IR
 from ..bounds import _guards, _norm_cmp
 from ..symex import is_expr, eval_tree
 from ..report import Violation, AnalysisBroken
+from ..cfg import cfg_of
 
 WAITS = ('nsync_cv_wait', 'nsync_mu_wait')
 
@@ -166,6 +168,8 @@ def run(ctx, rep):
                     rep.violate(Violation('C05.R4', sl.where(), '%s can go back to sleep after the sleep already ended with a timeout/cancellation' % wname, site='%s/resleep' % wname))
         if nsl == 0:
             raise AnalysisBroken('C05.R4: no sleep found in %s' % wname)
+    rep.rule('C05.R8', 'the first iteration of each wait loop reaches the sleep (so an expired deadline / notified note is applied and confirmed at once)')
+    check_first_iteration_sleeps(mod, rep, 'C05.R8')
     # ---- R5: registration on the cancel note (lockset engine)
     from .. import objmodel
     from .C08 import holds
@@ -209,6 +213,82 @@ def run(ctx, rep):
     return rep.finish(
         explanation='R1/R3 from the abstract interpreter (typestate at exit; the condition result is a symbolic boolean whose value set at each exit is compared with the returned code); R2/R4 are guard (dominance) and argument rules on sem_wait.c and the two wait loops.',
         trusted_base=['clang 14 IR', 'nsa/symex.py', 'dominators'])
+
+def check_first_iteration_sleeps(mod, rep, rid):
+    """In each wait loop of the two wait families (the loop that polls the thread's own waiting flag and contains the cancellable sleep) the
+    FIRST iteration reaches the sleep on every path that stays in the loop.  The sleep is what applies the caller's deadline and note: it returns
+    at once when they have passed, and the timeout is then confirmed under the spinlock.  A first iteration that can skip the sleep (an outcome
+    variable primed to ETIMEDOUT for an already expired deadline, say) skips that confirmation too and spins on the flag until somebody happens
+    to wake the thread: an expired deadline hangs instead of timing out.  Branches that depend only on the values the loop-header phis have on
+    entry (constants) are resolved; all others are taken both ways."""
+    SLEEP = ('nsync_sem_wait_with_cancel_',)
+    n = 0
+    for wname in ('nsync_cv_wait_with_deadline_generic', 'nsync_mu_wait_with_deadline'):
+        wf = mod.func(wname)
+        if wf is None or wf.decl:
+            raise AnalysisBroken('%s: %s not found' % (rid, wname))
+        fams = util.bind_params(mod, wf, [])
+        for gname in sorted(fams):
+            g = mod.func(gname)
+            cfg = cfg_of(g)
+            loops = cfg.loops()
+            for sl in [i for i in g.real_insts() if i.op == 'call' and i.callee in SLEEP]:
+                inl = [h for h, body in loops.items() if sl.block.id in body]
+                if not inl:
+                    continue
+                h = min(inl, key=lambda x: len(loops[x]))
+                body = loops[h]
+                outside = [p for p in g.bmap[h].preds if p not in body]
+                # values of the header phis on entry
+                env = {}
+                for i in g.bmap[h].insts:
+                    if i.op == 'phi':
+                        vals = [v for v, pb in i.ops if pb in outside]
+                        if vals and all(IR.is_int(v) for v in vals) and len(set(IR.ival(v) for v in vals)) == 1:
+                            env[i.id] = IR.ival(vals[0])
+                def decide(cond_ref):
+                    c = g.imap.get(cond_ref) if isinstance(cond_ref, str) else None
+                    if c is None or c.op != 'icmp':
+                        return None
+                    def cv(o):
+                        if IR.is_int(o):
+                            return IR.ival(o)
+                        return env.get(o) if isinstance(o, str) else None
+                    a, b = cv(c.ops[0]), cv(c.ops[1])
+                    if a is None or b is None:
+                        return None
+                    return {'eq': a == b, 'ne': a != b, 'sgt': a > b, 'sge': a >= b, 'slt': a < b, 'sle': a <= b,
+                            'ugt': a > b, 'uge': a >= b, 'ult': a < b, 'ule': a <= b}.get(c.x['pred'])
+                # search: from the header, a path back to the header (second iteration) that does not pass the sleep
+                bad = None
+                seen = set()
+                work = [(h, False)]
+                while work and bad is None:
+                    b, _ = work.pop()
+                    if b in seen:
+                        continue
+                    seen.add(b)
+                    if any(i is sl or (i.op == 'call' and i.callee in SLEEP) for i in g.bmap[b].insts):
+                        continue
+                    term = g.bmap[b].term
+                    succs = list(g.bmap[b].succ)
+                    if term.op == 'br' and len(term.x['targets']) == 2:
+                        d = decide(term.ops[0])
+                        if d is not None:
+                            succs = [term.x['targets'][0] if d else term.x['targets'][1]]
+                    for t in succs:
+                        if t == h and b != h or (t == h and b == h):
+                            bad = b
+                            break
+                        if t in body:
+                            work.append((t, False))
+                n += 1
+                rep.instance(rid, '%s: first iteration of the wait loop at %s reaches the sleep before it can iterate again: %s' % (gname, sl.where(), bad is None)); rep.oblig(rid, bad is None)
+                if bad is not None:
+                    rep.violate(Violation(rid, g.bmap[bad].term.where(), '%s: the first iteration of the wait loop can go round without sleeping (the sleep at %s is skipped, e.g. because an outcome variable is non-zero on entry): the deadline / cancellation is then never applied and confirmed, and the thread spins on its waiting flag until it happens to be woken - an already expired deadline hangs' % (wname, sl.where()),
+                                          site='%s/first-iteration-skips-sleep' % wname))
+    if n == 0:
+        raise AnalysisBroken('%s: no wait loop with a cancellable sleep found' % rid)
 
 def _is_flag(fn, ref):
     i = fn.imap.get(ref) if isinstance(ref, str) else None
